@@ -18,21 +18,34 @@ import PysamlModel.Proofs.C16
 namespace C16
 open Encrypt
 
-/-! ### facts about the arguments `_authn_response` hands to `_response` -/
+/-! ### confidentiality of the assertion -/
 
-theorem effA_facts {c : Call} (h : effA c = true) :
-    c.rargs.encryptAssertion = true ∧ earlyReturn c.rargs = false ∧ assertionKept c.rargs = true ∧
-    ∃ k, chooseCert c.rargs.certAssertion c.rargs.md = .key k := by
-  unfold effA requestedA at h
-  simp only [Bool.and_eq_true] at h
-  obtain ⟨hr, ha⟩ := h
-  have h1 : c.rargs.encryptAssertion = true := hr
-  refine ⟨h1, ?_, ?_, chooseCert_available ha⟩
-  · simp [earlyReturn, h1]
-  · unfold assertionKept
-    rw [h1]
-    have := available_kept ha
-    simpa [Call.rargs] using this
+/-! Concrete calls used by the non-vacuity examples: keys 1, 2 are the recipient's, 3 is somebody else's. -/
+private def mdOne : List MdKey := [⟨.signing, 4, true⟩, ⟨.encryption, 1, true⟩]
+/-- encrypt_assertion with everything signed -/
+private def callEnc : Call := { kw := ⟨some true, some true, some true, none, none⟩, md := mdOne }
+/-- PEFIM, assertion and advice encrypted, everything signed -/
+private def callPefim : Call := { kw := ⟨some true, some true, some true, none, none⟩, pefim := true, md := mdOne }
+/-- PEFIM, advice only, Response and assertion signed -/
+private def callAdvOnly : Call := { kw := ⟨some true, some true, some false, none, none⟩, pefim := true, md := mdOne }
+/-- an unusable certificate first, then two usable ones -/
+private def callRotate : Call :=
+  { kw := ⟨none, none, some true, none, none⟩, md := [⟨.encryption, 3, false⟩, ⟨.unspecified, 2, true⟩, ⟨.encryption, 1, true⟩] }
+
+private def okContent : Sp.Assertion :=
+  { conditions := some { nb := some 100, nooa := some 1000, audiences := [["me"]] },
+    authn := [{ sessionIndex := none }],
+    subject := some { nameId := some "n", confs := [{ method := .bearer, data := some { nooa := some 1000, recipient := some "u", irt := some "r1" } }] } }
+private def inputOf (c : Call) (keys : List Key) (tamper : Bool) : Input :=
+  { call := c, rc := { configured := keys }, tamper := tamper,
+    cfg := { wantResp := true, wantAssert := true, entityId := "me", returnAddrs := ["u"] },
+    env := { now := 100, outstanding := [("r1", "/x")] },
+    envelope := { issueInstant := 100, destination := some "u", inResponseTo := some "r1", issuer := some "idp" },
+    content := okContent }
+private def wireOfCall (c : Call) : Wire :=
+  match createAuthnResponse c with
+  | .ok iss => iss.wire
+  | .error _ => { body := .clear {} }
 
 /-- C16, confidentiality of the assertion: whenever assertion encryption is requested (by keyword,
     configuration or default) and the designated certificate is usable, the Response that is issued
@@ -59,61 +72,10 @@ theorem C16_confidential_assertion (c : Call) (iss : Issued) (outerHasAttrs : Bo
   unfold clearOf
   rw [ho]
 
-/-! ### advice -/
+example : effA callEnc = true ∧ (wireOfCall callEnc).body = .sealed 1 { sig := some none } true := by decide
+example : effA callRotate = true ∧ (wireOfCall callRotate).body = .sealed 2 {} true := by decide
 
-theorem outer_sealBody (ko : Option Key) (o : Outer) : (sealBody ko o).outer = o := by
-  cases ko <;> rfl
-
-theorem effAdv_facts {c : Call} (h : effAdv c = true) :
-    (∃ adv, c.rargs.advice = some adv) ∧ c.rargs.encryptedAdvice = true ∧ adviceKept c.rargs = true ∧
-    ∃ k, chooseCert c.rargs.certAdvice c.rargs.md = .key k := by
-  unfold effAdv requestedAdv at h
-  simp only [Bool.and_eq_true] at h
-  obtain ⟨⟨hr, hadv⟩, ha⟩ := h
-  have h1 : c.rargs.encryptedAdvice = true := hr
-  refine ⟨?_, h1, ?_, chooseCert_available ha⟩
-  · cases hc : c.advice with
-    | none => rw [hc] at hadv; cases hadv
-    | some adv => exact ⟨adv, hc⟩
-  · unfold adviceKept
-    rw [h1]
-    have := available_kept ha
-    simpa [Call.rargs] using this
-
-/-- the early return is taken exactly when the assertion is to be signed, not encrypted, and the Response
-    is not signed -/
-theorem earlyReturn_iff (c : Call) :
-    earlyReturn c.rargs = (c.opts.signAssertion && !c.opts.encryptAssertion && !c.opts.signResponse) := by
-  simp only [earlyReturn, Call.rargs]
-  cases c.opts.signAssertion <;> cases c.opts.encryptAssertion <;> cases c.opts.signResponse <;> rfl
-
-/-- Unless `_response` returns early, an advice assertion whose encryption is in effect leaves sealed
-    for one of the recipient's designated certificates — whatever happens to the assertion around it. -/
-theorem advice_sealed {c : Call} {iss : Issued} (heff : effAdv c = true) (he : earlyReturn c.rargs = false)
-    (h : createAuthnResponse c = .ok iss) :
-    ∃ k adv, iss.wire.body.outer.advice = some (.sealed k adv true) ∧ chooseCert c.certAdvice c.md = .key k := by
-  obtain ⟨⟨adv, hadv⟩, _, hkept, k, hc⟩ := effAdv_facts heff
-  have hB : ∀ {opsB advB}, partB c.rargs = .ok (opsB, advB) → advB = some (.sealed k (advAfterB c.rargs adv) true) := by
-    intro opsB advB hp
-    rcases partB_inv hp with ⟨hn, _⟩ | ⟨adv', _, hk', _⟩ | ⟨adv', ko, ha', _, hs, _, hb⟩
-    · rw [hadv] at hn; cases hn
-    · rw [hkept] at hk'; cases hk'
-    · rw [hadv] at ha'; cases ha'
-      rcases encryptStep_inv hs with ⟨hn, _⟩ | ⟨k', hk', hko, _⟩
-      · rw [hc] at hn; cases hn
-      · rw [hc] at hk'; cases hk'
-        subst hko
-        exact hb
-  refine ⟨k, advAfterB c.rargs adv, ?_, hc⟩
-  rcases response_inv h with ⟨he', _⟩ | ⟨_, _, hk', _⟩ | ⟨_, _, opsB, advB, ko, hp, _, _, hw⟩ | ⟨_, _, _, _, opsB, advB, hp, _, hw⟩
-  · rw [he] at he'; cases he'
-  · rw [hkept, hadv] at hk'; cases hk'
-  · rw [hw]
-    show (sealBody ko _).outer.advice = _
-    rw [outer_sealBody]
-    exact hB hp
-  · rw [hw]
-    exact hB hp
+/-! ### confidentiality of the advice -/
 
 /-- C16, confidentiality of the advice, FULL statement: whenever advice encryption is requested
     (`encrypted_advice_attributes` or PEFIM, and there is an advice assertion) and the designated
@@ -162,36 +124,11 @@ theorem C16_confidential_advice_counterexample : ¬ C16_confidential_advice_full
   revert this
   decide
 
+example : effAdv callAdvOnly = true ∧ earlyReturnClass callAdvOnly = false ∧
+    (wireOfCall callAdvOnly).body.outer.advice = some (.sealed 1 ⟨false, false⟩ true) := by decide
+example : effAdv earlyWitness = true ∧ earlyReturnClass earlyWitness = true := by decide
+
 /-! ### a Response is issued -/
-
-theorem wellPosed_facts {c : Call} (h : wellPosed c = true) :
-    (requestedA c = true ∨ requestedAdv c = true) ∧ (requestedA c = true → effA c = true) ∧
-    (requestedAdv c = true → effAdv c = true) := by
-  unfold wellPosed at h
-  simp only [Bool.and_eq_true, Bool.or_eq_true, Bool.not_eq_true'] at h
-  obtain ⟨⟨h1, h2⟩, h3⟩ := h
-  refine ⟨h1, ?_, ?_⟩
-  · intro hr; rcases h2 with h2 | h2
-    · rw [hr] at h2; cases h2
-    · exact h2
-  · intro hr; rcases h3 with h3 | h3
-    · rw [hr] at h3; cases h3
-    · exact h3
-
-/-- advice encryption kept by `_response` on an existing advice assertion was requested -/
-theorem requestedAdv_of_kept {c : Call} (hk : adviceKept c.rargs = true) (ha : c.rargs.advice.isSome = true) :
-    requestedAdv c = true := by
-  unfold adviceKept at hk
-  simp only [Bool.and_eq_true] at hk
-  unfold requestedAdv
-  have h1 : (c.opts.encryptedAdvice || c.pefim) = true := hk.1
-  have h2 : c.advice.isSome = true := ha
-  simp [h1, h2]
-
-theorem requestedA_of_kept {c : Call} (hk : assertionKept c.rargs = true) : requestedA c = true := by
-  unfold assertionKept at hk
-  simp only [Bool.and_eq_true] at hk
-  exact hk.1
 
 /-- C16, FULL statement: every combination of the flags whose requested encryptions have a usable
     certificate yields a Response. -/
@@ -267,26 +204,10 @@ theorem C16_issued_counterexample : ¬ C16_issued_full := by
   rw [this] at h
   cases h
 
+example : wellPosed callPefim = true ∧ objectFormClass callPefim = false := by decide
+example : wellPosed objectFormWitness = true ∧ objectFormClass objectFormWitness = true := by decide
+
 /-! ### whose key -/
-
-theorem map_clear_not_sealed {x : Option Adv} {k : Key} {adv : Adv} {b : Bool}
-    (h : x.map AdvBox.clear = some (.sealed k adv b)) : False := by
-  cases x <;> simp at h
-
-theorem partB_sealed {a : RArgs} {opsB : List Op} {advB : Option AdvBox} {k : Key} {adv : Adv} {b : Bool}
-    (hp : partB a = .ok (opsB, advB)) (hs : advB = some (.sealed k adv b)) :
-    b = true ∧ chooseCert a.certAdvice a.md = .key k := by
-  rcases partB_inv hp with ⟨_, _, hn⟩ | ⟨adv', _, _, _, hb⟩ | ⟨adv', ko, _, _, hst, _, hb⟩
-  · rw [hn] at hs; cases hs
-  · rw [hb] at hs; cases hs
-  · rw [hb] at hs
-    rcases encryptStep_inv hst with ⟨_, hko⟩ | ⟨k', hk', hko, _⟩
-    · subst hko; simp [sealAdv] at hs
-    · subst hko
-      simp only [sealAdv, Option.some.injEq, AdvBox.sealed.injEq] at hs
-      obtain ⟨h1, _, h3⟩ := hs
-      subst h1
-      exact ⟨h3.symm, hk'⟩
 
 /-- C16, "only by the recipient": whatever leaves sealed — the assertion or the advice assertion — is
     sealed, intact, for a certificate the call designates for the recipient: the explicit one if one was
@@ -322,6 +243,10 @@ theorem C16_key_of_recipient (c : Call) (iss : Issued) (h : createAuthnResponse 
     obtain ⟨h1, h2⟩ := partB_sealed hp hb
     exact ⟨h1, chooseCert_key_mem h2⟩
 
+example : (wireOfCall callRotate).body = .sealed 2 {} true ∧ candidates callRotate.certAssertion callRotate.md = [3, 2, 1] := by decide
+example : (wireOfCall { callPefim with certAdvice := .cert 2 true }).body =
+    .sealed 1 { sig := some (some (.sealed 2 ⟨false, false⟩ true)), advice := some (.sealed 2 ⟨false, false⟩ true) } true := by decide
+
 /-! ### signatures: order and validity at the recipient -/
 
 /-- C16, signature order (1): in every call the successful sign / encrypt operations happen in the order
@@ -349,6 +274,11 @@ theorem C16_ops_ordered (c : Call) (iss : Issued) (h : createAuthnResponse c = .
     rcases hB hp with hb | ⟨k, hb⟩ | hb | ⟨k, hb⟩ <;> subst hb <;>
       cases c.rargs.toSign <;> cases c.rargs.sign <;>
       simp [optOp, opsOrdered, Op.rank]
+
+example : createAuthnResponse callPefim = .ok
+    { ops := [.encAdvice 1, .signAssertion, .encAssertion 1, .signResponse], wire := wireOfCall callPefim,
+      trace := { branch := .encrypting, partB := true, partC := true } } := rfl
+example : opsOrdered [.encAssertion 1, .signAssertion] = false ∧ opsOrdered [.signResponse, .encAssertion 1] = false := by decide
 
 /-- C16, signature order (2): in every call each signature that is present was computed over exactly
     what is finally sent — the Response signature over the body as it leaves (assertion already sealed),
@@ -385,118 +315,337 @@ theorem C16_signature_order (c : Call) (iss : Issued) (h : createAuthnResponse c
     · exact (Option.some.inj hv).symm
     · cases hv
 
-/-- the advice as it can leave a well-posed call: absent, clear and schema-valid (its encryption was not
-    requested), or sealed for the recipient -/
-def AdvOk (c : Call) (advB : Option AdvBox) : Prop :=
-  (c.advice = none ∧ advB = none) ∨
-  (∃ adv, requestedAdv c = false ∧ advB = some (.clear adv) ∧ adv.schemaValid = true) ∨
-  (∃ k adv, advB = some (.sealed k adv true) ∧ k ∈ candidates c.certAdvice c.md)
+example : (wireOfCall callPefim).sig = some (wireOfCall callPefim).body ∧
+    (wireOfCall callPefim).body.outer.sig = some (wireOfCall callPefim).body.outer.advice := by decide
 
-theorem AdvOk.schemaOk {c : Call} {advB : Option AdvBox} {sig : Option (Option AdvBox)} (h : AdvOk c advB) :
-    Outer.schemaOk { sig := sig, advice := advB } = true := by
-  rcases h with ⟨_, h⟩ | ⟨adv, _, h, hv⟩ | ⟨k, adv, h, _⟩
-  · subst h; rfl
-  · subst h; simpa [Outer.schemaOk, AdvBox.schemaOk] using hv
-  · subst h; rfl
+/-! ### the recipient -/
 
-/-- What a well-posed call outside the early-return class issues: the assertion sealed for the recipient
-    (advice inside absent, clear-by-request or sealed), or — when only advice encryption was requested —
-    the assertion in clear around a sealed advice; signatures as requested. -/
-theorem wellPosed_shape {c : Call} {iss : Issued} (hw : wellPosed c = true) (hcls : earlyReturnClass c = false)
-    (h : createAuthnResponse c = .ok iss) :
-    ∃ advB, AdvOk c advB ∧
-      ((∃ k, k ∈ candidates c.certAssertion c.md ∧ requestedA c = true ∧
-          iss.wire = wireOf c.opts.signResponse
-            (.sealed k { sig := if c.opts.signAssertion then some advB else none, advice := advB } true)) ∨
-       (requestedA c = false ∧ (∃ k adv, advB = some (.sealed k adv true)) ∧
-          iss.wire = wireOf c.opts.signResponse
-            (.clear { sig := if c.opts.signAssertion then some advB else none, advice := advB }))) := by
-  obtain ⟨hsome, hA, hAdv⟩ := wellPosed_facts hw
-  -- the early return is not taken
-  have he : earlyReturn c.rargs = false := by
-    cases hee : earlyReturn c.rargs with
-    | false => rfl
-    | true =>
-      exfalso
-      rw [earlyReturn_iff] at hee
-      simp only [Bool.and_eq_true, Bool.not_eq_true'] at hee
-      obtain ⟨⟨hsa, hea⟩, hsr⟩ := hee
-      have hra : requestedA c = false := hea
-      rcases hsome with h1 | h1
-      · rw [hra] at h1; cases h1
-      · have := hAdv h1
-        unfold earlyReturnClass at hcls
-        simp only [this, hsa, hea, hsr] at hcls
-        cases hcls
-  -- the advice as part B leaves it
-  have hB : ∀ {opsB advB}, partB c.rargs = .ok (opsB, advB) → AdvOk c advB := by
-    intro opsB advB hp
-    cases hr : requestedAdv c with
-    | true =>
-      have heff := hAdv hr
-      obtain ⟨⟨adv, hadv⟩, _, hkept, k, hc⟩ := effAdv_facts heff
-      right; right
-      rcases partB_inv hp with ⟨hn, _⟩ | ⟨adv', _, hk', _⟩ | ⟨adv', ko, _, _, hs, _, hb⟩
-      · rw [hadv] at hn; cases hn
-      · rw [hkept] at hk'; cases hk'
-      · rcases encryptStep_inv hs with ⟨hn, _⟩ | ⟨k', hk', hko, _⟩
-        · rw [hc] at hn; cases hn
-        · subst hko
-          exact ⟨k', _, hb, chooseCert_key_mem hk'⟩
-    | false =>
-      rcases partB_inv hp with ⟨hn, _, hb⟩ | ⟨adv', ha', _, _, hb⟩ | ⟨adv', ko, ha', hk', _⟩
-      · exact Or.inl ⟨hn, hb⟩
-      · right; left
-        refine ⟨adv', hr, hb, ?_⟩
-        -- not PEFIM (PEFIM requests advice encryption), so it is the schema-valid assertion handed in
-        have ha'' : c.advice = some adv' := ha'
-        unfold requestedAdv at hr
-        rw [ha''] at hr
-        simp only [Option.isSome_some, Bool.and_true, Bool.or_eq_false_iff] at hr
-        unfold Call.advice at ha''
-        rw [hr.2] at ha''
-        simp only [Bool.false_eq_true, if_false] at ha''
-        split at ha''
-        · cases ha''; rfl
-        · cases ha''
-      · exfalso
-        have := requestedAdv_of_kept hk' (by rw [ha']; rfl)
-        rw [hr] at this; cases this
-  have hsr : c.rargs.sign = c.opts.signResponse := rfl
-  have hsa : c.rargs.signAssertion = c.opts.signAssertion := rfl
-  rcases response_inv h with ⟨he', _⟩ | ⟨_, hkA, hkAdv, _, _⟩ | ⟨_, hkA, opsB, advB, ko, hp, hst, _, hwr⟩ | ⟨_, hkA, hkAdv, hsomeadv, opsB, advB, hp, _, hwr⟩
-  · rw [he] at he'; cases he'
-  · -- nothing kept: then nothing was requested
-    exfalso
-    rcases hsome with h1 | h1
-    · obtain ⟨_, _, hk, _⟩ := effA_facts (hA h1)
-      rw [hk] at hkA; cases hkA
-    · obtain ⟨⟨adv, hadv⟩, _, hk, _⟩ := effAdv_facts (hAdv h1)
-      rw [hk, hadv] at hkAdv; cases hkAdv
-  · have hreq := requestedA_of_kept hkA
-    obtain ⟨_, _, _, k, hc⟩ := effA_facts (hA hreq)
-    refine ⟨advB, hB hp, Or.inl ⟨k, chooseCert_key_mem hc, hreq, ?_⟩⟩
-    rcases encryptStep_inv hst with ⟨hn, _⟩ | ⟨k', hk', hko, _⟩
-    · rw [hc] at hn; cases hn
-    · rw [hc] at hk'; cases hk'
-      subst hko
-      rw [hwr, hsr, hsa]
-      rfl
-  · have hreq : requestedA c = false := by
-      cases hr : requestedA c with
-      | false => rfl
-      | true =>
-        obtain ⟨_, _, hk, _⟩ := effA_facts (hA hr)
-        rw [hk] at hkA; cases hkA
-    have hradv := requestedAdv_of_kept hkAdv hsomeadv
-    have hts : c.rargs.toSign = c.opts.signAssertion := by
-      have : c.opts.encryptAssertion = false := hreq
-      simp [Call.rargs, this]
-    refine ⟨advB, hB hp, Or.inr ⟨hreq, ?_, ?_⟩⟩
-    · rcases hB hp with ⟨hn, _⟩ | ⟨adv, hr, _⟩ | ⟨k, adv, hb, _⟩
-      · rw [show c.rargs.advice = c.advice from rfl, hn] at hsomeadv; cases hsomeadv
-      · rw [hradv] at hr; cases hr
-      · exact ⟨k, adv, hb⟩
-    · rw [hwr, hsr, hts]
+/-- C16, wrong key: a recipient that does not hold the private key matching the certificate the
+    assertion was sealed for obtains no identity — whatever else it is configured with, whatever the
+    message says, damaged or not.  If only the advice assertion is sealed for a key it does not hold, the
+    advice assertion's content does not reach it. -/
+theorem C16_wrong_key (i : Input) (w : Wire) :
+    (∀ k o b, w.body = .sealed k o b → i.rc.holds k = false → (i.outcome w).isIdentity = false) ∧
+    (∀ k adv b, w.body.outer.advice = some (.sealed k adv b) → i.rc.holds k = false →
+       (receive i.rc (i.sent w)).adviceVisible = false) := by
+  constructor
+  · intro k o b hb hk
+    obtain ⟨he, hd⟩ := receive_sealed (rc := i.rc) (sent_body_sealed (i := i) hb)
+    apply outcome_shut he
+    rw [hd, hk]; simp
+  · intro k adv b hadv hk
+    obtain ⟨b', hb', _⟩ := sent_advice_sealed (i := i) hadv
+    rw [receive_advice_sealed hb', hk]; simp
+
+/-- C16, corrupted ciphertext: after a bit flip in the ciphertext or the wrapped key of the EncryptedData
+    on the wire, a sealed assertion yields no identity — even for the holder of the right key — and a
+    sealed advice assertion (inside a clear assertion) stays unread. -/
+theorem C16_corrupt (i : Input) (w : Wire) (ht : i.tamper = true) :
+    (∀ k o b, w.body = .sealed k o b → (i.outcome w).isIdentity = false) ∧
+    (∀ k adv b, w.body.outer.advice = some (.sealed k adv b) → (∀ k' o' b', w.body ≠ .sealed k' o' b') →
+       (receive i.rc (i.sent w)).adviceVisible = false) := by
+  constructor
+  · intro k o b hb
+    obtain ⟨he, hd⟩ := receive_sealed (rc := i.rc) (sent_body_sealed (i := i) hb)
+    apply outcome_shut he
+    rw [hd, ht]; simp
+  · intro k adv b hadv hne
+    obtain ⟨b', hb', hf, _⟩ := sent_advice_sealed (i := i) hadv
+    rw [receive_advice_sealed hb', hf hne ht]; simp
+
+example : (inputOf callEnc [2, 3] false).outcome (wireOfCall callEnc) = .noIdentity := by decide
+example : ((inputOf callEnc [2, 1] false).outcome (wireOfCall callEnc)).isIdentity = true := by decide
+example : (inputOf callEnc [1] true).outcome (wireOfCall callEnc) = .rejected .sigBadResponse := by decide
+example : (inputOf { callEnc with kw := ⟨some false, some true, some true, none, none⟩ } [1] true).outcome
+    (wireOfCall { callEnc with kw := ⟨some false, some true, some true, none, none⟩ }) = .rejected .sigMissingResponse := by decide
+example : (receive (inputOf callAdvOnly [2] false).rc ((inputOf callAdvOnly [2] false).sent (wireOfCall callAdvOnly))).adviceVisible = false := by decide
+
+/-- C16, signatures verify at the recipient: for a well-posed call outside the early-return class the
+    Response signature (computed after encryption) and the assertion signature (computed before the
+    assertion is sealed, after its advice is) are valid when the recipient checks them, and present
+    exactly when requested. -/
+theorem C16_signatures_verify (c : Call) (iss : Issued) (hw : wellPosed c = true)
+    (hcls : earlyReturnClass c = false) (h : createAuthnResponse c = .ok iss) :
+    respSig iss.wire = (if c.opts.signResponse then .valid else .absent) ∧
+    outerSig iss.wire.body.outer = (if c.opts.signAssertion then .valid else .absent) := by
+  obtain ⟨advB, hok, hshape⟩ := wellPosed_shape hw hcls h
+  rcases hshape with ⟨k, _, _, hwire⟩ | ⟨_, _, hwire⟩
+  · rw [hwire]
+    refine ⟨?_, outerSig_ok _ hok⟩
+    rw [respSig_wireOf]; simp [Body.schemaOk]
+  · rw [hwire]
+    refine ⟨?_, outerSig_ok _ hok⟩
+    rw [respSig_wireOf]
+    have := hok.schemaOk (sig := if c.opts.signAssertion then some advB else none)
+    simp [Body.schemaOk, this]
+
+example : wellPosed callAdvOnly = true ∧ respSig (wireOfCall callAdvOnly) = .valid ∧
+    outerSig (wireOfCall callAdvOnly).body.outer = .valid := by decide
+/-- outside the theorem's hypotheses: after the early return the signed assertion contains PEFIM's
+    Issuer-less advice assertion in clear and the signature check refuses it -/
+example : outerSig (wireOfCall earlyWitness).body.outer = .corrupted := by decide
+
+/-- C16, recoverable: for a well-posed call outside the early-return class, an undamaged Response and a
+    recipient holding the private key(s) matching what was sealed — whenever the recipient's model accepts
+    the same Response with the assertion in clear and the requested signatures in place (otherwise valid,
+    signature policy satisfied), it accepts the encrypted one and reports exactly the same identity; the
+    reported subject identifier is the issued one and the advice assertion's content is read.  For every
+    sign / encrypt combination, every recipient configuration, clock, envelope and assertion content. -/
+theorem C16_recoverable (i : Input) (iss : Issued) (hw : wellPosed i.call = true)
+    (hcls : earlyReturnClass i.call = false) (h : createAuthnResponse i.call = .ok iss) (hnt : i.tamper = false)
+    (hkA : ∀ k o b, iss.wire.body = .sealed k o b → i.rc.holds k = true)
+    (hkAdv : ∀ k adv b, iss.wire.body.outer.advice = some (.sealed k adv b) → i.rc.holds k = true)
+    (o : Sp.Reported) (hplain : Sp.process i.cfg i.env (plainVariant i) = .identity o) :
+    i.outcome iss.wire = .identity o ∧ o.nameId = i.content.subject.bind (·.nameId) ∧
+    (i.hasAdvice = true → (receive i.rc (i.sent iss.wire)).adviceVisible = true) := by
+  obtain ⟨h1, h2, h3, h4⟩ := receive_wellPosed hw hcls h hnt hkA hkAdv
+  rw [plainVariant_eq] at hplain
+  refine ⟨?_, (Sp.process_nameId hplain : o.nameId = (asrtOf i).subject.bind (·.nameId)), h4⟩
+  unfold Input.outcome
+  rw [toSp_eq, h1, h2, h3]
+  cases he : (receive i.rc (i.sent iss.wire)).encrypted with
+  | false => exact hplain
+  | true => exact Sp.process_transparent hplain
+
+example : (Sp.process (inputOf callPefim [1] false).cfg (inputOf callPefim [1] false).env (plainVariant (inputOf callPefim [1] false))).isIdentity = true ∧
+    ((inputOf callPefim [1] false).outcome (wireOfCall callPefim)).isIdentity = true ∧
+    (receive (inputOf callPefim [1] false).rc (wireOfCall callPefim)).adviceVisible = true := by decide
+example : ((inputOf callAdvOnly [1] false).outcome (wireOfCall callAdvOnly)).isIdentity = true := by decide
+
+/-! ### the model meets the decidable specification
+
+  (`obsOk` … `specIssued_model` are helper lemmas, one per clause of `Encrypt.spec`; they rest on the property
+  theorems above, which is why they live here and not in Proofs/C16.lean.) -/
+
+def obsOk (i : Input) (iss : Issued) : Obs :=
+  { issued := true
+    ops := iss.ops
+    wire := wireObs iss.wire
+    leak := clearOf i.outerHasAttrs iss.wire
+    tampered := i.tamper && iss.wire.hasCiphertext
+    sp := spObs i (receive i.rc (i.sent iss.wire)) (i.outcome iss.wire) }
+
+theorem observe_ok {i : Input} {iss : Issued} (h : createAuthnResponse i.call = .ok iss) : observe i = obsOk i iss := by
+  unfold observe; rw [h]; rfl
+
+theorem observe_err {i : Input} {e : Refusal} (h : createAuthnResponse i.call = .error e) :
+    observe i = { issued := false } := by
+  unfold observe; rw [h]
+
+theorem spObs_kind (i : Input) (s : Seen) (out : Sp.Outcome) :
+    ((spObs i s out).kind == .identity) = out.isIdentity := by
+  cases out <;> rfl
+
+theorem wireObs_body_sealed {w : Wire} (h : (wireObs w).body = .sealed) :
+    ∃ k o b, w.body = .sealed k o b ∧ (wireObs w).bodyKey = some k := by
+  cases hb : w.body with
+  | sealed k o b => exact ⟨k, o, b, rfl, by simp [wireObs, hb]⟩
+  | clear o => simp [wireObs, hb, bodyKind] at h
+  | wrapped o => simp [wireObs, hb, bodyKind] at h
+
+theorem wireObs_advice_sealed {w : Wire} (h : (wireObs w).advice = .sealed) :
+    ∃ k adv b, w.body.outer.advice = some (.sealed k adv b) ∧ (wireObs w).adviceKey = some k := by
+  cases ha : w.body.outer.advice with
+  | none => simp [wireObs, ha, advKind] at h
+  | some bx =>
+    cases bx with
+    | sealed k adv b => exact ⟨k, adv, b, rfl, by simp [wireObs, ha]⟩
+    | clear adv => simp [wireObs, ha, advKind] at h
+    | wrapped adv => simp [wireObs, ha, advKind] at h
+
+theorem specConfA_model (i : Input) (iss : Issued) (h : createAuthnResponse i.call = .ok iss) :
+    specConfA i (obsOk i iss) = true := by
+  unfold specConfA
+  cases heff : effA i.call with
+  | false => simp
+  | true =>
+    obtain ⟨⟨k, o, hb, _⟩, hclear⟩ := C16_confidential_assertion i.call iss i.outerHasAttrs heff h
+    simp [obsOk, hclear, wireObs, hb, bodyKind]
+
+theorem specConfAdv_model (i : Input) (iss : Issued) (hcls : earlyReturnClass i.call = false)
+    (h : createAuthnResponse i.call = .ok iss) : specConfAdv i (obsOk i iss) = true := by
+  unfold specConfAdv
+  cases heff : effAdv i.call with
+  | false => simp
+  | true =>
+    obtain ⟨⟨h1, h2⟩, _⟩ := C16_confidential_advice_partial i.call iss i.outerHasAttrs heff hcls h
+    simp [obsOk, h1, h2]
+
+theorem specKey_model (i : Input) (iss : Issued) (h : createAuthnResponse i.call = .ok iss) :
+    specKey i (obsOk i iss) = true := by
+  obtain ⟨hA, hAdv⟩ := C16_key_of_recipient i.call iss h
+  unfold specKey
+  simp only [obsOk, Bool.not_true, Bool.false_or, Bool.and_eq_true, Bool.or_eq_true, bne_iff_ne, ne_eq]
+  constructor
+  · by_cases hs : (wireObs iss.wire).body = .sealed
+    · right
+      obtain ⟨k, o, b, hb, hk⟩ := wireObs_body_sealed hs
+      rw [hk]
+      simpa [keyAmong] using (hA k o b hb).2
+    · exact Or.inl hs
+  · by_cases hs : (wireObs iss.wire).advice = .sealed
+    · right
+      obtain ⟨k, adv, b, hb, hk⟩ := wireObs_advice_sealed hs
+      rw [hk]
+      simpa [keyAmong] using (hAdv k adv b hb).2
+    · exact Or.inl hs
+
+theorem specWrongKey_model (i : Input) (iss : Issued) : specWrongKey i (obsOk i iss) = true := by
+  obtain ⟨hA, hAdv⟩ := C16_wrong_key i iss.wire
+  unfold specWrongKey
+  simp only [obsOk, Bool.not_true, Bool.false_or, Bool.and_eq_true, Bool.or_eq_true, Bool.not_eq_true',
+    Bool.and_eq_false_iff, bne_iff_ne, ne_eq, beq_iff_eq]
+  constructor
+  · by_cases hs : (wireObs iss.wire).body = .sealed
+    · obtain ⟨k, o, b, hb, hk⟩ := wireObs_body_sealed hs
+      cases hh : i.rc.holds k with
+      | true => left; right; rw [hk]; simpa [keyHeld] using hh
+      | false =>
+        right
+        have := hA k o b hb hh
+        rw [← spObs_kind i (receive i.rc (i.sent iss.wire))] at this
+        simpa using this
+    · exact Or.inl (Or.inl (by simpa using hs))
+  · by_cases hs : (wireObs iss.wire).advice = .sealed
+    · obtain ⟨k, adv, b, hb, hk⟩ := wireObs_advice_sealed hs
+      cases hh : i.rc.holds k with
+      | true => left; left; right; rw [hk]; simpa [keyHeld] using hh
+      | false =>
+        have hv := hAdv k adv b hb hh
+        cases hout : i.outcome iss.wire with
+        | identity o => right; simp [spObs, hv]
+        | noIdentity => left; right; simp [spObs]
+        | rejected e => left; right; simp [spObs]
+    · exact Or.inl (Or.inl (Or.inl (by simpa using hs)))
+
+theorem specCorrupt_model (i : Input) (iss : Issued) : specCorrupt i (obsOk i iss) = true := by
+  unfold specCorrupt
+  cases ht : (i.tamper && iss.wire.hasCiphertext) with
+  | false => simp [obsOk, ht]
+  | true =>
+    simp only [Bool.and_eq_true] at ht
+    obtain ⟨ht, hc⟩ := ht
+    obtain ⟨hA, hAdv⟩ := C16_corrupt i iss.wire ht
+    simp only [obsOk, ht, hc, Bool.and_self, Bool.not_true, Bool.false_or]
+    by_cases hs : (wireObs iss.wire).body = .sealed
+    · obtain ⟨k, o, b, hb, _⟩ := wireObs_body_sealed hs
+      have := hA k o b hb
+      rw [← spObs_kind i (receive i.rc (i.sent iss.wire))] at this
+      simp only [hs, beq_self_eq_true, if_true]
+      simpa using this
+    · have hne : ∀ k' o' b', iss.wire.body ≠ .sealed k' o' b' := by
+        intro k' o' b' hb
+        apply hs
+        simp [wireObs, hb, bodyKind]
+      -- the ciphertext on the wire is then the advice's
+      have hadv : ∃ k adv b, iss.wire.body.outer.advice = some (.sealed k adv b) := by
+        unfold Wire.hasCiphertext at hc
+        cases hb : iss.wire.body with
+        | sealed k' o' b' => exact (hne k' o' b' hb).elim
+        | clear o =>
+          rw [hb] at hc
+          simp only at hc
+          split at hc
+          next k adv b ha => exact ⟨k, adv, b, by simpa [Body.outer] using ha⟩
+          · cases hc
+        | wrapped o =>
+          rw [hb] at hc
+          simp only at hc
+          split at hc
+          next k adv b ha => exact ⟨k, adv, b, by simpa [Body.outer] using ha⟩
+          · cases hc
+      obtain ⟨k, adv, b, ha⟩ := hadv
+      have hv := hAdv k adv b ha hne
+      have hs' : ((wireObs iss.wire).body == BodyKind.sealed) = false := by simpa using hs
+      simp only [hs', Bool.false_eq_true, if_false]
+      cases hout : i.outcome iss.wire with
+      | identity o => simp [spObs, hv]
+      | noIdentity => simp [spObs]
+      | rejected e => simp [spObs]
+
+theorem specRecover_model (i : Input) (iss : Issued) (hcls : earlyReturnClass i.call = false)
+    (h : createAuthnResponse i.call = .ok iss) : specRecover i (obsOk i iss) = true := by
+  unfold specRecover
+  cases hhyp : (wellPosed i.call && (obsOk i iss).issued && !(obsOk i iss).tampered &&
+      ((obsOk i iss).wire.body != .sealed || keyHeld i.rc (obsOk i iss).wire.bodyKey) &&
+      ((obsOk i iss).wire.advice != .sealed || keyHeld i.rc (obsOk i iss).wire.adviceKey) && plainAccepted i) with
+  | false => rfl
+  | true =>
+    simp only [Bool.and_eq_true, Bool.or_eq_true, Bool.not_eq_true', bne_iff_ne, ne_eq] at hhyp
+    obtain ⟨⟨⟨⟨⟨hw, _⟩, htam⟩, hkb⟩, hka⟩, hpl⟩ := hhyp
+    have hct := shape_hasCiphertext hw hcls h
+    have hnt : i.tamper = false := by
+      simp only [obsOk, hct, Bool.and_true] at htam
+      exact htam
+    have hkA : ∀ k o b, iss.wire.body = .sealed k o b → i.rc.holds k = true := by
+      intro k o b hb
+      rcases hkb with hkb | hkb
+      · exact (hkb (by simp [obsOk, wireObs, hb, bodyKind])).elim
+      · simpa [obsOk, wireObs, hb, keyHeld] using hkb
+    have hkAdv : ∀ k adv b, iss.wire.body.outer.advice = some (.sealed k adv b) → i.rc.holds k = true := by
+      intro k adv b hb
+      rcases hka with hka | hka
+      · exact (hka (by simp [obsOk, wireObs, hb, advKind])).elim
+      · simpa [obsOk, wireObs, hb, keyHeld] using hka
+    unfold plainAccepted at hpl
+    cases hout : Sp.process i.cfg i.env (plainVariant i) with
+    | noIdentity => rw [hout] at hpl; cases hpl
+    | rejected e => rw [hout] at hpl; cases hpl
+    | identity o =>
+      obtain ⟨h1, h2, h3⟩ := C16_recoverable i iss hw hcls h hnt hkA hkAdv o hout
+      simp only [Bool.not_true, Bool.false_or, obsOk, h1, spObs, h2, beq_self_eq_true, Bool.and_true, Bool.true_and]
+      cases hadv : i.hasAdvice with
+      | false => simp
+      | true => simp [h3 hadv]
+
+theorem specOrder_model (i : Input) (iss : Issued) (hcls : earlyReturnClass i.call = false)
+    (h : createAuthnResponse i.call = .ok iss) : specOrder i (obsOk i iss) = true := by
+  unfold specOrder
+  cases hw : wellPosed i.call with
+  | false => simp
+  | true =>
+    obtain ⟨advB, _, hshape⟩ := wellPosed_shape hw hcls h
+    have hord := C16_ops_ordered i.call iss h
+    simp only [obsOk, Bool.and_self, Bool.not_true, Bool.false_or, hord, Bool.and_true]
+    rcases hshape with ⟨k, _, _, hwire⟩ | ⟨_, _, hwire⟩ <;> rw [hwire] <;>
+      cases i.call.opts.signResponse <;> cases i.call.opts.signAssertion <;> simp [wireObs, wireOf, Body.outer]
+
+theorem specIssued_model (i : Input) (hcls : objectFormClass i.call = false) : specIssued i (observe i) = true := by
+  unfold specIssued
+  cases hw : wellPosed i.call with
+  | false => rfl
+  | true =>
+    obtain ⟨iss, h⟩ := C16_issued_partial i.call hw hcls
+    rw [observe_ok h]
+    rfl
+
+/-- FULL statement: the model's observation satisfies the decidable specification the driver evaluates
+    on the implementation's observation. -/
+def C16_model_meets_spec_full : Prop := ∀ i : Input, spec i (observe i) = true
+
+/-- … holds for every input outside the two classes on which the pinned code is known to fail. -/
+theorem C16_model_meets_spec_partial (i : Input) (hearly : earlyReturnClass i.call = false)
+    (hobj : objectFormClass i.call = false) : spec i (observe i) = true := by
+  have hiss := specIssued_model i hobj
+  cases h : createAuthnResponse i.call with
+  | error e =>
+    rw [observe_err h] at hiss ⊢
+    simp only [spec, hiss, Bool.and_true]
+    simp [specConfA, specConfAdv, specKey, specRecover, specWrongKey, specCorrupt, specOrder]
+  | ok iss =>
+    rw [observe_ok h] at hiss ⊢
+    simp only [spec, hiss, specConfA_model i iss h, specConfAdv_model i iss hearly h, specKey_model i iss h,
+      specRecover_model i iss hearly h, specWrongKey_model i iss, specCorrupt_model i iss,
+      specOrder_model i iss hearly h, Bool.and_self]
+
+theorem C16_model_meets_spec_counterexample : ¬ C16_model_meets_spec_full := by
+  intro hfull
+  have := hfull { call := objectFormWitness }
+  revert this
+  decide
+
+example : earlyReturnClass callPefim = false ∧ objectFormClass callPefim = false ∧
+    spec (inputOf callPefim [1] false) (observe (inputOf callPefim [1] false)) = true := by decide
+example : spec (inputOf earlyWitness [1] false) (observe (inputOf earlyWitness [1] false)) = false := by decide
 
 end C16
